@@ -1,4 +1,6 @@
 """C14 - client subscription messages mirror the requested subscription set."""
+import random
+
 from .. import scen, stackprop
 
 CODES = {1: "an ideal server applying the sent Subscribe/StopSubscribe entries does not end up with the requested set",
@@ -31,16 +33,49 @@ def directed_mid_round(r):
     return dict(cfg=tuple(cfg), insts=[], draws=[], events=sorted(events, key=lambda e: e[0]), end=end, rev=r.random() < 0.3, fuel=20000)
 
 
+def directed_resubscribe_burst(r):
+    """While the subscriber runs, ONE instant holds subscribe X, stop-subscribe A, subscribe A (A requested before or first
+    requested in that very instant) for one server: the deferred transmissions must leave in the order of the calls."""
+    from .. import conv
+    T = scen.T
+    cfg = list(scen.timings(r))
+    cfg[11] = r.choice([0, 0, 5 * scen.MS])
+    refresh = r.choice([None, None, T, 2 * T])
+    cfg[10] = refresh
+    cfg[9] = 0xFFFFFF if refresh is None else r.choice([3, 0xFFFFFF])
+    ga, gx = r.sample(scen.EGS, 2)
+    srv = r.choice([1, 2])
+    events = [(0, (1, [11]))]
+    before = r.random() < 0.6
+    if before:
+        events.append((r.choice([0, 1, T // 4]), (1, [9, conv.s_eg(ga), srv])))
+    t = r.choice([T // 2, T, T + 1] + ([refresh, refresh + 1] if refresh else []))
+    burst = []
+    if r.random() < 0.7:
+        burst.append([9, conv.s_eg(gx), r.choice([srv, srv, 3 - srv])])
+    if not before:
+        burst.append([9, conv.s_eg(ga), srv])
+    burst += [[10, conv.s_eg(ga), srv, True], [9, conv.s_eg(ga), srv]]
+    if r.random() < 0.3:
+        burst += [[10, conv.s_eg(ga), srv, True]]
+    events += [(t, (1, c)) for c in burst]
+    if r.random() < 0.3:
+        events.append((t + 2 * T, (1, [12, True])))
+    return dict(cfg=tuple(cfg), insts=[], draws=[], events=events, end=t + 4 * T, rev=r.random() < 0.3, fuel=20000)
+
+
 def run(ctx):
     r = ctx.rng
     quick = ctx.tier == "quick"
     ctx.rule = ("sequences of subscribe / stop-subscribe (no duplicate subscribes) / start / stop of the subscriber for 3 eventgroups (IPv4/IPv6 local endpoints, "
                 "UDP/TCP) x 2 servers at times on refresh instants, +-1 tick and anywhere, refresh intervals {None,1,2,3 s}; complete traces compared with the "
                 "model; implementation trace judged by check_C14; every fifth scenario: eventgroups at THREE servers and an application stop-subscribe made one, two "
-                "or three loop iterations into the start / refresh instant (ApiSoon); non-trivial = distinct scenario producing at least one transmission")
+                "or three loop iterations into the start / refresh instant (ApiSoon); bursts subscribe X / stop-subscribe A / subscribe A in ONE instant; non-trivial = distinct scenario producing at least one transmission")
     ctx.assumptions = ["no duplicate subscribe of the same eventgroup to the same server (the property's proviso)"]
     n = 300 if quick else 10000
     scs = stackprop.corpus_scenarios("C14") + [directed_mid_round(r) if k % 5 == 3 else scen.subscriber_scenario(r) for k in range(n)]
+    r2 = random.Random(ctx.seed * 7919 + 14)      # a stream of its own: the scenarios above stay what they were
+    scs += [directed_resubscribe_burst(r2) for _ in range(40 if quick else 1500)]
     stackprop.run_scenarios(ctx, scs, 3014, CODES, what="subscriber")
 
 
